@@ -470,6 +470,41 @@ func (e *engine) evalOne(g *group, k int) bool {
 				}
 				return last
 			})
+			return true
+		}
+		if usedEligible(s) {
+			// second decode: into a receiver that already holds another value of the type
+			ru := core.NewRand(*seed, hashName(g.name), int64(k), 11)
+			used := generateUsed(s, ru)
+			viaMsg := ru.Intn(2) == 0 && s.typ.Kind() != reflect.Slice
+			core.Distinct("nontrivial", s.codec+"/"+s.tclass+"/used:"+vclass)
+			core.Add("evaluations", 1)
+			core.Add("evaluations_roundtrip_used", 1)
+			if k == 1 && *batch == 1%*nbatch && s.tclass == "Payload" {
+				detail = true
+				core.Sample(map[string]interface{}{"group": g.name, "vclass": vclass, "value": show(p.Elem().Interface()), "used_receiver": show(used.Elem().Interface())})
+				detail = false
+			}
+			if fu := usedRoundtrip(s, p, byValue, used, viaMsg); fu != nil {
+				again := func() *failure { return usedRoundtrip(s, p, byValue, used, viaMsg) }
+				e.report(g, k, vclass, fu, again, func() *failure {
+					budget := 300
+					pq := reflect.New(s.typ)
+					pq.Elem().Set(clone(p.Elem(), false))
+					last := fu
+					test := func() bool {
+						ff := usedRoundtrip(s, pq, byValue, used, viaMsg)
+						if ff != nil && ff.symptom == fu.symptom {
+							last = ff
+							return true
+						}
+						return false
+					}
+					shrink(pq.Elem(), test, &budget)
+					test()
+					return last
+				})
+			}
 		}
 		return true
 	}
